@@ -18,6 +18,8 @@ META = {
     "assumptions": [],
 }
 
+PARTIAL_RESETS = ("deflateResetKeep", "deflateCopy", "deflateSetDictionary", "deflatePrime")
+
 SPEC = {
     GZ: {"stream": "m_gzip", "step": "write_gzip", "code": "deflate", "end": "deflateEnd", "init": "deflateInit2_", "finish": "Z_FINISH",
          "ok": {0: "Z_OK", 1: "Z_STREAM_END"}, "end_code": 1, "suffix": ".gz", "finish_val": 4, "run_val": 0},
@@ -41,7 +43,26 @@ def depends_on_param(e, fn, env, depth=0):
     return False
 
 
+def check_no_partial_reset(run, rule):
+    """A compressor kept for the next output has to be brought back to its initial state completely: the partial resets of the
+    zlib API keep the window of the previous output, which the reader of the new output never sees."""
+    facts = run.facts
+    ctl = facts.control("r14_4_partial_reset", rule)
+    if not any(callee_name(c_) in PARTIAL_RESETS for c_ in ir.calls_in(ctl["body"])):
+        raise AnalysisBroken(rule, "the partial-reset detector is silent on its control (tu/rule_controls.cpp)")
+    for cls, sp in SPEC.items():
+        tag = short(cls)
+        anchor = facts.fn(cls + "::open", rule=rule)
+        partial = [(f_, c_) for f_ in facts.functions.values() if f_.get("cls") == cls and f_.get("body") is not None
+                   for c_ in ir.calls_in(f_["body"]) if callee_name(c_) in PARTIAL_RESETS]
+        run.ob(rule, "%s:no-partial-reset" % tag, not partial, partial[0][0] if partial else anchor, partial[0][1].get("l", 0) if partial else anchor["line"],
+               "the stream is (re)initialised only through %s / a full reset" % sp["init"] if not partial else
+               "%s() keeps compression state of the previous output (window, dictionary): the first bytes of the next output can refer to data that "
+               "is not in it" % callee_name(partial[0][1]), nontrivial=False)
+
+
 def check(run):
+    check_no_partial_reset(run, "R14.4")
     facts = run.facts
     for cls, sp in SPEC.items():
         tag = short(cls)
@@ -77,8 +98,8 @@ def check(run):
             c = cond(loops[0]["cond"], env)
             calls = [x for x in ir.calls_in(loops[0]["body"]) if callee_qn(x) == "%s::%s" % (cls, sp["step"])]
             ok = c == ("nz", "this.%s.avail_in" % sp["stream"]) and len(calls) == 1
-            if ok and const_value(calls[0]["args"][1]) != sp["run_val"]:
-                ok, why = False, "write() must run the compressor without finishing it (action %s)" % show(calls[0]["args"][1])
+            if ok and const_value(calls[0]["args"][-1]) != sp["run_val"]:
+                ok, why = False, "write() must run the compressor without finishing it (action %s)" % show(calls[0]["args"][-1])
             elif not ok:
                 why = "write() loop condition is %s with %d compressor step(s); input is dropped unless it loops until avail_in == 0" % (show_f(c), len(calls))
         run.ob("R14.2", "%s::write:loop-until-input-consumed" % tag, ok, wr, wr["line"],
@@ -99,13 +120,15 @@ def check(run):
             steps = [x for x in ir.calls_in(lp) if callee_qn(x) == "%s::%s" % (cls, sp["step"])]
             cmp_ok = isinstance(c, dict) and c.get("k") == "Bin" and c.get("op") == "!=" and \
                 (const_value(c["rhs"]) == sp["end_code"] or const_value(c["lhs"]) == sp["end_code"])
-            fin_ok = len(steps) == 1 and const_value(steps[0]["args"][1]) == sp["finish_val"]
+            fin_ok = len(steps) == 1 and const_value(steps[0]["args"][-1]) == sp["finish_val"]
             order = {id(n): i for i, n in enumerate(ir.walk(cl["body"]))}
             ends = [x for x in ir.calls_in(cl["body"]) if callee_name(x) == sp["end"]]
-            end_ok = len(ends) == 1 and order[id(ends[0])] > order[id(lp)]
+            # releasing the stream is not part of delivering the data (a writer that keeps its compressor for the next output
+            # releases it in the destructor); what loses data is a release *before* the stream was finished
+            end_ok = all(order[id(e_)] > order[id(lp)] for e_ in ends)
             ok = cmp_ok and fin_ok and end_ok
             if not ok:
-                why = "close(): loop-until-stream-end=%s, FINISH action=%s, %s after the loop=%s" % (cmp_ok, fin_ok, sp["end"], end_ok)
+                why = "close(): loop-until-stream-end=%s, FINISH action=%s, no %s before the stream is finished=%s" % (cmp_ok, fin_ok, sp["end"], end_ok)
         elif len(loops) == 0:
             why = "close() finishes the stream with a single call: pending compressed data beyond one chunk and the trailer are lost"
         run.ob("R14.2", "%s::close:drain-until-stream-end" % tag, ok, cl, cl["line"],
@@ -159,19 +182,31 @@ def check(run):
                         elif a_[0] == "nz":
                             keys.add(a_[1] if isinstance(a_[1], str) else ir.path_str(a_[1]))
                     vals = None
+                    import itertools as _it
                     for key_ in sorted(keys):
+                        # the return code is the key the guard compares with numbers; every other key (a state flag such as
+                        # "stream active") ranges over {0, 1}: a code counts as accepted if some state forwards under it
+                        others = sorted(k_ for k_ in keys if k_ != key_)
+                        if len(others) > 4:
+                            continue
                         acc = set()
                         unknown = False
                         for v_ in range(-12, 20):
-                            r_ = ir.eval_formula(g, {key_: v_})
-                            if r_ is None:
-                                unknown = True
+                            seen_true = False
+                            for combo in _it.product((0, 1), repeat=len(others)):
+                                val_ = dict(zip(others, combo))
+                                val_[key_] = v_
+                                r_ = ir.eval_formula(g, val_)
+                                if r_ is None:
+                                    unknown = True
+                                    break
+                                seen_true = seen_true or r_
+                            if unknown:
                                 break
-                            if r_:
+                            if seen_true:
                                 acc.add(v_)
-                        if not unknown:
+                        if not unknown and acc != set(range(-12, 20)) and (vals is None or acc == set(sp["ok"])):
                             vals = acc
-                            break
                     if vals is None:
                         okc = None
                         why = "cannot tabulate the guard %s of the forwarding call over the return code" % show_f(g)
